@@ -766,6 +766,27 @@ func classifyErr(fi *FactInfo, b *ssa.BasicBlock, v ssa.Value, depth int) errKin
 		if fld, _ := loadedField(x.Call.Value); fld != nil && fld.Name() == "entityNotFoundF" {
 			return errNonNil
 		}
+		// step.failed(err): a function kept in a field of an unexported struct, every value of which maps an
+		// error to an error (returns it, wraps it, or makes a new one): non-nil when the error handed in is
+		if fld, _ := loadedField(x.Call.Value); fld != nil && !fld.Exported() && !x.Call.IsInvoke() && x.Call.StaticCallee() == nil && depth < 4 {
+			if targets := fieldFuncTargets(fld); len(targets) > 0 {
+				all := true
+				for _, t := range targets {
+					idx, isMapper := errorMapperParam(t)
+					if !isMapper {
+						all = false
+						break
+					}
+					if idx >= 0 && (idx >= len(x.Call.Args) || classifyErr(fi, b, x.Call.Args[idx], depth+1) != errNonNil) {
+						all = false
+						break
+					}
+				}
+				if all {
+					return errNonNil
+				}
+			}
+		}
 		if f, _ := calleeOf(x.Common()); f != nil {
 			if isErrorCtor(f) {
 				return errNonNil
@@ -1097,4 +1118,95 @@ func handedIn(fn *ssa.Function, v ssa.Value) bool {
 		}
 	}
 	return false
+}
+
+// curProg: the loaded program (set by Load), for the few value-level helpers that have to look at other functions.
+var curProg *Prog
+
+// fieldFuncTargets: the functions a function-typed field of an unexported struct can hold: what every store to
+// that field in its package stores (closures, named functions, results of module factories).  nil when a store
+// cannot be resolved.
+func fieldFuncTargets(fld *types.Var) []*ssa.Function {
+	if curProg == nil || fld.Pkg() == nil {
+		return nil
+	}
+	short := strings.TrimPrefix(strings.TrimPrefix(fld.Pkg().Path(), modPath), "/")
+	if curProg.SSAPkgs[short] == nil {
+		return nil
+	}
+	var out []*ssa.Function
+	for _, fn := range curProg.SrcFuncs(short) {
+		for _, b := range fn.Blocks {
+			for _, in := range b.Instrs {
+				st, isSt := in.(*ssa.Store)
+				if !isSt {
+					continue
+				}
+				if f, _ := fieldOfAddr(st.Addr); !sameVar(f, fld) {
+					continue
+				}
+				ts := closuresOf(st.Val, 0)
+				if len(ts) == 0 {
+					return nil
+				}
+				out = append(out, ts...)
+			}
+		}
+	}
+	return out
+}
+
+// errorMapperParam: fn returns exactly one error and every return hands back one particular error parameter,
+// that parameter wrapped, or a freshly made error.  The index of that parameter (-1: none needed, every return
+// makes a new error).
+func errorMapperParam(fn *ssa.Function) (int, bool) {
+	if fn == nil || fn.Blocks == nil || fn.Signature.Results().Len() != 1 || !isErrorType(fn.Signature.Results().At(0).Type()) {
+		return 0, false
+	}
+	idx := -1
+	var ok func(v ssa.Value, depth int) bool
+	ok = func(v ssa.Value, depth int) bool {
+		if depth > 3 {
+			return false
+		}
+		switch x := v.(type) {
+		case *ssa.Parameter:
+			for i, prm := range fn.Params {
+				if prm == x && isErrorType(x.Type()) {
+					if idx >= 0 && idx != i {
+						return false
+					}
+					idx = i
+					return true
+				}
+			}
+		case *ssa.MakeInterface:
+			return true
+		case *ssa.Call:
+			f, _ := calleeOf(x.Common())
+			if f == nil {
+				return false
+			}
+			if isErrorCtor(f) {
+				return true
+			}
+			if f.Pkg() != nil && f.Pkg().Path() == "github.com/pkg/errors" && len(x.Call.Args) > 0 {
+				switch f.Name() {
+				case "Wrap", "Wrapf", "WithStack", "WithMessage", "WithMessagef":
+					return ok(x.Call.Args[0], depth+1)
+				}
+			}
+		}
+		return false
+	}
+	rets := returnsOf(fn)
+	if len(rets) == 0 {
+		return 0, false
+	}
+	for _, r := range rets {
+		if !ok(r.Results[0], 0) {
+			return 0, false
+		}
+	}
+	return idx, true
 }
